@@ -4,8 +4,7 @@ CLAIMS = {
     'C18': {
         'text': 'Decides, for every path of the anchored datastore functions, the shape of the address arithmetic: '
                 'the acceptance region of sequential validate, slice bounds of get/set, the sparse range/subset test, '
-                'the zero-mode offset and table selection of the slave context, and routing / id interval of the server '
-                'context. These are necessary conditions of the property that hold or fail for all inputs at once; '
+                'the zero-mode offset and table selection of the slave context, routing / id interval of the server context, and storage isolation (default blocks fresh per table and per context, constructors copy their initial values). These are necessary conditions of the property that hold or fail for all inputs at once; '
                 'operation histories are not decided.',
         'note': 'Python slice/dict/set semantics trusted; only the in-memory blocks and contexts named in the anchors are analysed.',
         'technique': 'path enumeration + affine constraint normal forms (static)',
@@ -14,7 +13,7 @@ CLAIMS = {
         'text': 'Decides on every path of the ten data-access execute() methods: fc->table map equals the spec data model, reads '
                 'return getValues(fc, validated address, validated count), writes store the request values at the validated '
                 'address, FC23 writes before it reads, responses echo the spec fields, the FC22 stored value has the spec truth '
-                'table, and validate/get/set of the slave context share one address transform. Necessary structural conditions; '
+                'table, and validate/get/set of the slave context share one address transform, and the four tables of a context are distinct objects by default. Necessary structural conditions; '
                 'request histories and "latest write wins" are not decided.',
         'note': 'In-memory ModbusSlaveContext only; struct and Python list semantics trusted; C18 decides block arithmetic.',
         'technique': 'path enumeration with value propagation + bitwise truth table + sibling comparison (static)',
@@ -23,8 +22,7 @@ CLAIMS = {
         'text': 'Decides for all paths of the data-access execute() methods that an accepted request satisfies exactly the spec '
                 'quantity intervals and byte-count relations, that guard / address failures answer 03 / 02 with the request '
                 'function code, that every setValues is dominated by every guard and by validate(fc, same address, number of '
-                'values written), that no path writes and then answers an exception, that unknown codes yield exception 01 and '
-                'that every front-end maps a datastore exception to 04. Boundary sweeps over concrete stores are not run.',
+                'values written), that no path writes and then answers an exception, that unknown codes yield exception 01 that every front-end maps a datastore exception to 04, and that the block validate() predicates behind the range guard accept a range iff every addressed cell exists. Boundary sweeps over concrete stores are not run.',
         'note': 'Attribute<->wire binding of guarded fields is decided by C01/C02; block range arithmetic by C18. Three genuine '
                 'defects (FC5 value word, FC15 quantity) are listed in known_findings.jsonl.',
         'technique': 'guard/dominance analysis over enumerated paths, interval + affine normal forms (static)',
@@ -43,7 +41,7 @@ CLAIMS = {
         'text': 'Decides the unit-filter decision table rows the property fixes, that every non-broadcast path executes once against '
                 'context[request.unit_id], that the broadcast branch (iff broadcast_enable and unit 0) iterates context.slaves() once '
                 'each without sending, the gateway exception / silence for absent units, that every receive loop passes '
-                'context.slaves()/context.single and admits unit 0 under broadcast, and the server-context routing/id interval.',
+                'context.slaves()/context.single and admits unit 0 under broadcast, the server-context routing/id interval, and that contexts do not share default blocks (a write to one unit cannot reach another through a shared default).',
         'note': 'Non-interference between unit datastores at run time follows from these routing facts plus C05 R2; it is not itself decided.',
         'technique': 'decision-table enumeration + path routing analysis + sibling agreement (static)',
     },
@@ -59,7 +57,7 @@ CLAIMS = {
     'C17': {
         'text': 'Sibling cross-check: the normalised execute / send / receive-loop summaries of all seven front-end variants are compared '
                 'with the reference (sync stream handler); any divergence in exception->response mapping, id copies, send count, context '
-                'key, should_respond gate, payload source or framer-call arguments is reported. Broadcast rows are exempt (C10).',
+                'key, should_respond gate, payload source or framer-call arguments is reported. Stream receive loops must not reset the framer on an iteration without a fault, for every reachable state of their loop-carried flags (fixpoint over the loop body). Broadcast rows are exempt (C10).',
         'note': 'Decides agreement of the code summaries, not byte-identical outputs over histories or interleavings.',
         'technique': 'cross-checking sibling implementations via path summaries (static)',
     },
@@ -116,7 +114,7 @@ CLAIMS = {
     'C16': {
         'text': 'Decides on every path of the Twisted client protocol: id provenance (getNextTID -> request -> registration key) and '
                 'ordering before buildPacket, 16-bit id arithmetic, routing by reply.transaction_id with removal before callback, the registry returning only the entry stored under the requested id, '
-                'dropping of unsolicited replies, connectionLost clearing the flag and errback-ing a snapshot of all pending entries, '
+                'dropping of unsolicited replies, connectionLost clearing the flag before errback-ing a snapshot of all pending entries, '
                 'failed deferred when not connected, FIFO append/pop(0).',
         'note': 'Deferred semantics are Twisted\'s; more than 65535 outstanding requests are out of scope. These rules are regression guards (all hold today).',
         'technique': 'dataflow / ordering rules over enumerated paths (static)',
@@ -142,7 +140,7 @@ CLAIMS = {
     'C02': {
         'text': 'Writer/reader agreement computed directly between each encode() summary and the matching decode() summary (independent '
                 'of the spec table), purity of encode (no attribute modified in place without a reset in the same call), decode not '
-                'accumulating, and losslessness of re-classing by sub-function code (no constructor-only state read after the swap).',
+                'accumulating, and losslessness of re-classing by sub-function code (no constructor-only state read after the swap; the dispatch is reached for every sub-function code, 0 included).',
         'note': 'struct trusted for value equality. Five genuine defects are known findings (four asymmetric pairs, one accumulation pinned by a test).',
         'technique': 'writer/reader layout-summary comparison + reaching-definition style purity rule (static)',
     },
